@@ -494,6 +494,27 @@ impl VerifTable {
     }
 }
 
+/// A real `TableCache` (one per database instance) for the database directory in `options`.
+pub struct VerifTableCache {
+    cache: Arc<crate::table_cache::TableCache>,
+}
+
+impl VerifTableCache {
+    pub fn new(options: &crate::DbOptions, capacity: usize) -> Self {
+        VerifTableCache {
+            cache: Arc::new(crate::table_cache::TableCache::new(options.clone(), capacity)),
+        }
+    }
+
+    /// `TableCache::find_table(file_number)`: the block-cache partition id of the table it hands out.
+    pub fn find_partition_id(&self, file_number: u64) -> Result<u64, String> {
+        self.cache
+            .find_table(file_number)
+            .map(|table| table.verif_cache_partition_id())
+            .map_err(|e| e.to_string())
+    }
+}
+
 /// A `FilesEntryIterator` (the iterator over the files of one level >= 1) over table files built
 /// from the given entry lists, with tuple-typed keys.
 pub struct LevelCursor {
